@@ -98,6 +98,8 @@ def check(ctx):
                     'the package before yielding it and the separator after each resource')
     commits.r15_datafile_order(ctx)
     commits.r15_checkpoint_rename(ctx)
+    # a first-run checkpoint is transparent only if the steps before it run once: chain replacement (shared with C07)
+    commits.checkpoint_replaces(ctx)
     commits.r15_descriptor_after_loop(ctx)
     sf = commits.stream_func(ctx)
     preds = {'WRITE_PKG': lambda x: isinstance(x, ast.Call) and isinstance(x.func, ast.Name) and x.func.id == roles['write'].name
